@@ -368,8 +368,11 @@ fn anonymous_lifetime_cases(tier: &str) -> Vec<XCase> {
              format!("let z = 1u8; let a = W2(&z, 0u8); format!(\"{{}};{{}};{{}}\", &a {sym} &5u32, W2(&z, 0u8) {sym} 6u32, W2(&z, 0u8) {sym} &7u32)"), "6;7;8".to_string()));
         bases.push(("Op for &G<T> where T: Scale<Self> + Clone", format!("{tr}"), format!("impl<T> ::core::ops::{tr} for &G<T> where T: Scale<Self> + Clone {{ type Output = u32; fn {f}(self, r: &G<T>) -> u32 {{ self.1 + r.1 }} }}"),
              format!("let a = G(0u8, 1); let b = G(0u8, 5); format!(\"{{}};{{}};{{}}\", &a {sym} b.clone(), a.clone() {sym} &b, a {sym} b)"), "6;6;6".to_string()));
+        // the lint level attributes of the user's impl cover the impls derived from it (a deprecated operand type)
+        bases.push(("#[allow(deprecated)] impl Op<Dep> for Dep, under deny(deprecated)", format!("{tr}"), format!("#[allow(deprecated)] impl ::core::ops::{tr}<dep::Dep> for dep::Dep {{ type Output = u32; fn {f}(self, r: dep::Dep) -> u32 {{ self.0 + r.0 }} }}"),
+             format!("#[allow(deprecated)] let r = {{ let a = dep::Dep(1); let b = dep::Dep(5); (&a {sym} &b, a.clone() {sym} &b, &a {sym} b) }}; format!(\"{{}};{{}};{{}}\", r.0, r.1, r.2)"), "6;6;6".to_string()));
         for (what, req, imp, run, exp) in bases {
-            let code = format!("use derive_ex::derive_ex;\n#[derive(Clone, Debug)] pub struct W<'a>(pub &'a u8, pub u32);\n#[derive(Clone, Debug)] pub struct G<T>(pub T, pub u32);\n#[derive(Clone, Debug)] pub struct W2<'a, T>(pub &'a u8, pub T);\npub trait Weight {{}}\nimpl<'x, 'y, T> Weight for &'x W2<'y, T> {{}}\npub trait Scale<S> {{}}\nimpl<'x> Scale<&'x G<u8>> for u8 {{}}\n#[derive_ex({req})]\n{imp}\npub fn run() -> String {{ {run} }}\n");
+            let code = format!("use derive_ex::derive_ex;\npub mod dep {{ #[deprecated] #[derive(Clone, Debug)] pub struct Dep(pub u32); }}\n#[derive(Clone, Debug)] pub struct W<'a>(pub &'a u8, pub u32);\n#[derive(Clone, Debug)] pub struct G<T>(pub T, pub u32);\n#[derive(Clone, Debug)] pub struct W2<'a, T>(pub &'a u8, pub T);\npub trait Weight {{}}\nimpl<'x, 'y, T> Weight for &'x W2<'y, T> {{}}\npub trait Scale<S> {{}}\nimpl<'x> Scale<&'x G<u8>> for u8 {{}}\n#[deny(deprecated)] mod inner {{ use super::*;\n#[derive_ex({req})]\n{imp}\n}}\npub fn run() -> String {{ {run} }}\n");
             let mut atoms = BTreeSet::new();
             atoms.insert(format!("op={tr}"));
             atoms.insert("header=anonymous-lifetime".to_string());
